@@ -55,6 +55,46 @@ func (d *Day) SolarRoutes(prev *Day, viaLunar bool) []RouteSolar {
 		add("previous day 23:59:59 .NextHour(1)", func() *calendar.Solar {
 			return calendar.NewSolar(prev.Y, prev.M, prev.D, 23, 59, 59).NextHour(1)
 		})
+		// query first, navigate afterwards: whatever the source object remembers from being asked must not travel
+		add("previous day 23:59:59, asked for weekday/festivals/lunar date, then .NextHour(1)", func() *calendar.Solar {
+			src := calendar.NewSolar(prev.Y, prev.M, prev.D, 23, 59, 59)
+			src.GetWeek()
+			src.GetFestivals()
+			src.GetXingZuo()
+			if viaLunar {
+				src.GetLunar()
+				src.ToFullString()
+				src.GetSalaryRate()
+			}
+			return src.NextHour(1)
+		})
+		add("previous day noon, asked, then .NextHour(24).NextDay(0)", func() *calendar.Solar {
+			src := calendar.NewSolar(prev.Y, prev.M, prev.D, 12, 0, 0)
+			src.GetWeek()
+			src.GetWeekInChinese()
+			return src.NextHour(24).NextDay(0)
+		})
+		add("previous day, asked, then .Next(1,false)", func() *calendar.Solar {
+			src := calendar.NewSolarFromYmd(prev.Y, prev.M, prev.D)
+			src.GetWeek()
+			return src.Next(1, false)
+		})
+	}
+	if d.J+1 <= r1JDN(9998, 12, 31) {
+		add("next day, asked, then .NextDay(-1)", func() *calendar.Solar {
+			ny, nm, nd := r1FromJDN(d.J + 1)
+			src := calendar.NewSolarFromYmd(ny, nm, nd)
+			src.GetWeek()
+			src.GetFestivals()
+			return src.NextDay(-1)
+		})
+		add("next day 00:30, asked, then .NextHour(-1)", func() *calendar.Solar {
+			ny, nm, nd := r1FromJDN(d.J + 1)
+			src := calendar.NewSolar(ny, nm, nd, 0, 30, 0)
+			src.GetWeek()
+			src.GetFestivals()
+			return src.NextHour(-1)
+		})
 	}
 	if viaLunar {
 		add("GetLunar().GetSolar()", func() *calendar.Solar { return d.L().GetSolar() })
@@ -87,6 +127,12 @@ func (d *Day) At(h, m, s int) *calendar.Solar { return calendar.NewSolar(d.Y, d.
 // always find "the right" year in the cache.
 var perturbCache = false
 
+// walkLunar: when set, sweepDays maintains curWalk, a lunar object for the current day's 00:00:00 that was reached by
+// a chain of Next(1) calls from the first day of the contiguous range (never reconstructed). lunarP hands it out as
+// one of the routes; checks may also compare it with the directly built object.
+var walkLunar = false
+var curWalk *calendar.Lunar
+
 func sweepDays(w *W, id string, fn func(d *Day, prev *Day)) {
 	for _, r := range w.Shard.Ranges {
 		j0, j1 := rangeJDN(r)
@@ -100,6 +146,17 @@ func sweepDays(w *W, id string, fn func(d *Day, prev *Day)) {
 				continue
 			}
 			w.R.States++
+			if walkLunar {
+				// the walking lunar object: built once at the start of the range and advanced by Next(1) ever since
+				if prev == nil || curWalk == nil {
+					curWalk = nil
+					try(func() { curWalk = d.S.GetLunar() })
+				} else {
+					wk := curWalk
+					curWalk = nil
+					try(func() { curWalk = wk.Next(1) })
+				}
+			}
 			if perturbCache {
 				switch j % 5 {
 				case 1:
@@ -160,7 +217,18 @@ func lunarYmd(l *calendar.Lunar) string {
 // rules must hold on each. A route that fails or lands elsewhere falls back to the conversion (C01/C07 judge it).
 func lunarP(s *calendar.Solar, j int) *calendar.Lunar {
 	l := s.GetLunar()
-	switch j % 3 {
+	switch j % 4 {
+	case 3:
+		// an object reached by navigation: the sweep's walking object (chain of Next(1) since the start of the range) at
+		// 00:00:00, or one backward hop from the next day's object at the same time of day
+		if curWalk != nil && (j/4)%2 == 0 && curWalk.GetSolar().ToYmdHms() == s.ToYmdHms() {
+			l = curWalk
+		} else {
+			var l2 *calendar.Lunar
+			if _, p := try(func() { l2 = s.NextDay(1).GetLunar().Next(-1) }); !p && l2 != nil && l2.GetSolar().ToYmdHms() == s.ToYmdHms() {
+				l = l2
+			}
+		}
 	case 1:
 		var l2 *calendar.Lunar
 		if _, p := try(func() {
@@ -169,7 +237,7 @@ func lunarP(s *calendar.Solar, j int) *calendar.Lunar {
 			l = l2
 		}
 	case 2:
-		t := time.Date(s.GetYear(), time.Month(s.GetMonth()), s.GetDay(), s.GetHour(), s.GetMinute(), s.GetSecond(), 500000000, tzOf(j/3))
+		t := time.Date(s.GetYear(), time.Month(s.GetMonth()), s.GetDay(), s.GetHour(), s.GetMinute(), s.GetSecond(), 500000000, tzOf(j/4))
 		if t.Year() == s.GetYear() && int(t.Month()) == s.GetMonth() && t.Day() == s.GetDay() {
 			var l2 *calendar.Lunar
 			if _, p := try(func() { l2 = calendar.NewLunarFromDate(t) }); !p && l2 != nil && l2.GetSolar().ToYmdHms() == s.ToYmdHms() {
